@@ -20,7 +20,9 @@ Definition shared_state_check : bool :=
              String.eqb pkg "." && String.eqb v "macPayloadRegistry" &&
              forallb (fun f => existsb (fun s => String.eqb (fst s) f) lock_summary) fs)
           global_writers
-  && match registry_readers_in_initialisers with [] => true | _ => false end.
+  && match registry_readers_in_initialisers with [] => true | _ => false end
+  (* the only package-level synchronisation object / pool / atomic is the registry's mutex *)
+  && forallb (fun e : string * string => String.eqb (fst e) "." && String.eqb (snd e) "macPayloadMutex") sync_globals.
 
 Lemma shared_state_ok : shared_state_check = true.
 Proof. vm_compute. reflexivity. Qed.
